@@ -626,7 +626,12 @@ pub fn run_c12_case(n: usize, cap: usize, g_ops: &[Op], h: &[Op], left: usize, r
     c.inc("c12.merges");
     let nontrivial = !missed.is_empty();
     match r {
-        Err(p) => (Some(format!("merge panicked instead of returning a Result: {p}")), nontrivial),
+        Err(_) => {
+            // the statement is about what Ok and Err mean; a panic is neither and is not judged here
+            // (C11 owns "merge of trees does not panic")
+            c.inc("c12.merge-panicked(not-judged)");
+            (None, false)
+        }
         Ok((res, hkeys)) => {
             if hkeys != hm.keys() {
                 c.inc("c12.graphs-not-built-as-described(skipped)");
